@@ -363,3 +363,4 @@ H("C12", "html/layout", "VxH_C12_avoid_paragraph", mode="real", reach=["laid-out
 H("C13", "html/layout", "VxH_C13_auto_percent", mode="real", nonfinite_confirm=True, reach=["laid-out"], bounds="auto layout, 2 rows x 3 columns: two percentage columns (symbolic in [10,90]%) under a colspan-2 cell holding a 400px block, a third column of 20px content; symbolic border spacing; paths with a float division by zero are decided natively", quick={"maxsteps": 150000000, "shards": 4})
 H("C14", "html/document", "VxH_C14_zero_size_boxes", mode="real", nonfinite_confirm=True, reach=["laid-out", "drawn"], bounds="one block with a background, overflow visible / hidden, border-radius 0 / 5px, no border / top border / four borders of 6 styles; content width and height each in {0, 3, 10} px", quick={"maxsteps": 200000000, "shards": 8})
 H("C16", "html/document", "VxH_C16_nested_order", reach=["laid-out", "drawn"], bounds="html > body > section > (article, nav, aside): section static / relative (z-index auto), each child static / absolute / absolute with z-index 0; unique colours", quick={"maxsteps": 200000000, "shards": 6})
+H("C17", "svg", "VxH_C17_svg_apply_transform", mode="real", reach=["applied", "invertible", "singular"], bounds="SVG transform lists matrix(a b c d e f), translate scale, scale translate with every number a symbolic real in [-10,10]")
